@@ -15,17 +15,14 @@ Only property theorems and their non-vacuity examples live here; helper lemmas a
 Store/NamespaceLemmas.lean (where the invariant `Inv` = "every class `__dict__` has unique keys and
 every cache is empty or equal to the fresh MRO walk" is defined).
 
-Two deviations found by this check on an earlier tree are repaired in /repo and the model follows the
-repaired code: a failing `add_parameter` puts the previous class attribute back (9350ff5), and
-`values()`/serialisation of an unset `Dynamic`-type parameter read the class Parameter's default
-(9f6df2c); a rejected class-level assignment removes its copy again (1e41598).
+The deviations found by this check on earlier trees are repaired in /repo and the model follows the
+repaired code: a failing `add_parameter` puts the previous class attribute back and clears the caches
+(9350ff5, 7bbc787); `values()`/serialisation of an unset `Dynamic`-type parameter read the class
+Parameter's default (9f6df2c); a rejected class-level assignment removes its copy again (1e41598); a
+Parameter object assigned to a class attribute takes the `add_parameter` path (3c67719, 6653662).
+`namespace_agrees` / `C13_full_holds` therefore hold for all histories of the operations modelled.
 
 NOT covered by the theorems, stated here so that nobody reads more into them:
-  * class-level assignment of a *Parameter object* (`C.y = param.Integer()`, `Op.clsSetParam`) is
-    covered when it is accepted (3c67719: names the Parameter, clears the caches); when the merge
-    re-validation REJECTS it the Parameter stays installed and no cache is cleared: that event
-    refutes the full statement (`C13_full_refuted`) and is excluded by `okSeq` in
-    `namespace_agrees_partial`.
   * the hierarchy is fixed at the start of a history (no class-creation operation);
   * `repr` and watcher registration are not modelled as separate consumers (they read the same
     `objects('existing')` / `cls.param` dictionary as `values()`); the inherited `name` parameter,
@@ -55,22 +52,6 @@ structure Agrees (s : St) : Prop where
   /-- the same for Parameters of a `Dynamic` type (Number, Integer), class and instance level -/
   cls_values_dyn : ∀ (c : CId) (n : Name), clsValuesDyn s c n = clsAttr s c n
   inst_values_dyn : ∀ (i : IId) (n : Name), instValuesDyn s i n = instAttr s i n
-
-/-- the one excluded event: a Parameter-valued class assignment that its merge re-validation rejects -/
-def Op.ok (s : St) : Op → Prop
-  | .clsSetParam c n d hi => (step s (.clsSetParam c n d hi)).2 ≠ .runtimeError
-  | _ => True
-
-instance (s : St) (op : Op) : Decidable (Op.ok s op) := by
-  cases op <;> unfold Op.ok <;> exact inferInstance
-
-def okSeq : St → List Op → Prop
-  | _, [] => True
-  | s, op :: ops => Op.ok s op ∧ okSeq (step s op).1 ops
-
-instance okSeqDec : (s : St) → (ops : List Op) → Decidable (okSeq s ops)
-  | _, [] => isTrue trivial
-  | s, op :: ops => by unfold okSeq; exact @instDecidableAnd _ _ _ (okSeqDec _ ops)
 
 /-- **C13 (one state).**  When every cache is empty or up to date, everything the namespace
 shows agrees with attribute access. -/
@@ -128,11 +109,41 @@ theorem agrees_of_inv (s : St) (h : Inv s) (hi : InstOk s) : Agrees s := by
           | none => rw [hd] at this; cases this
           | some po => rw [hd] at hs; cases hs
 
+/-- `add_parameter` (and, since 6653662, a Parameter object assigned to a class attribute): whether it
+succeeds or its merge re-validation raises, every cache stays empty or up to date -/
+theorem addParamCore_inv (s : St) (c : CId) (n : Name) (d : Int) (hi : Option Int) (h : Inv s) :
+    Inv (addParamCore s c n d hi).1 := by
+  unfold addParamCore
+  split
+  · exact h
+  · split
+    · exact h
+    · dsimp only
+      split
+      · have h1 := inv_clear_setDict (s := { s with heap := s.heap ++ [{ default := d, hi := hi }] })
+          (inv_of_classes (s := s) rfl h) c n s.heap.length
+        exact inv_of_classes (s := clearDesc (setDict { s with heap := s.heap ++ [{ default := d, hi := hi }] } c n s.heap.length) c) rfl h1
+      · -- the call raised: the class is as it was, caches of the class and its descendants cleared
+        exact inv_clearDesc (inv_of_classes (s := s) (s' := { s with heap := s.heap ++ [_] }) rfl h) c
+
+theorem addParamCore_instOk (s : St) (c : CId) (n : Name) (d : Int) (hi : Option Int) (h : InstOk s) :
+    InstOk (addParamCore s c n d hi).1 := by
+  unfold addParamCore
+  split
+  · exact h
+  · split
+    · exact h
+    · dsimp only
+      split
+      · exact instOk_cow2 s _ _ c n _ h
+      · exact instOk_of (s := s) rfl (clearDesc_shape { s with heap := s.heap ++ [_] } c).1
+          (fun k m hk => by rw [(clearDesc_shape { s with heap := s.heap ++ [_] } c).2]; exact hk) h
+
 /-- **C13 (one step).**  Every operation — a namespace read, a class-level assignment on the
 declaring class or on a subclass (copy-on-write; a rejected one removes the copy again),
 `add_parameter` at any level (succeeding or raising), instance creation, instance assignment, `obj.param[n]` — keeps every cache empty or up to
 date. -/
-theorem step_preserves_inv (s : St) (op : Op) (h : Inv s) (hop : Op.ok s op) : Inv (step s op).1 := by
+theorem step_preserves_inv (s : St) (op : Op) (h : Inv s) : Inv (step s op).1 := by
   suffices H : ∀ s' r, step s op = (s', r) → Inv s' from H _ _ rfl
   intro s' r hstep
   cases op with
@@ -161,21 +172,8 @@ theorem step_preserves_inv (s : St) (op : Op) (h : Inv s) (hop : Op.ok s op) : I
             exact inv_clearDesc h c
   | addParam c n d hi =>
     simp only [step] at hstep
-    split at hstep
-    · simp only [Prod.mk.injEq] at hstep; rw [← hstep.1]; exact h
-    · rename_i k _
-      split at hstep
-      · simp only [Prod.mk.injEq] at hstep; rw [← hstep.1]; exact h
-      · split at hstep
-        · simp only [Prod.mk.injEq] at hstep
-          rw [← hstep.1]
-          have h1 := inv_clear_setDict (s := { s with heap := s.heap ++ [{ default := d, hi := hi }] })
-            (inv_of_classes (s := s) rfl h) c n s.heap.length
-          exact inv_of_classes (s := clearDesc (setDict { s with heap := s.heap ++ [{ default := d, hi := hi }] } c n s.heap.length) c) rfl h1
-        · -- the call raised: the class is as it was, caches of the class and its descendants cleared
-          simp only [Prod.mk.injEq] at hstep
-          rw [← hstep.1]
-          exact inv_clearDesc (inv_of_classes (s := s) (s' := { s with heap := s.heap ++ [_] }) rfl h) c
+    have := addParamCore_inv s c n d hi h
+    rw [hstep] at this; exact this
   | newInst c kw =>
     simp only [step] at hstep
     split at hstep
@@ -219,22 +217,9 @@ theorem step_preserves_inv (s : St) (op : Op) (h : Inv s) (hop : Op.ok s op) : I
     · rename_i x _
       simp only [Prod.mk.injEq] at hstep; rw [← hstep.1]; exact inv_nsRead h x.cls
   | clsSetParam c n d hi =>
-    have hne : r ≠ .runtimeError := by
-      have : (step s (.clsSetParam c n d hi)).2 ≠ .runtimeError := hop
-      rw [hstep] at this; exact this
     simp only [step] at hstep
-    split at hstep
-    · simp only [Prod.mk.injEq] at hstep; rw [← hstep.1]; exact h
-    · split at hstep
-      · simp only [Prod.mk.injEq] at hstep; rw [← hstep.1]; exact h
-      · split at hstep
-        · simp only [Prod.mk.injEq] at hstep
-          rw [← hstep.1]
-          have h1 := inv_clear_setDict (s := { s with heap := s.heap ++ [{ default := d, hi := hi }] })
-            (inv_of_classes (s := s) rfl h) c n s.heap.length
-          exact inv_of_classes (s := clearDesc (setDict { s with heap := s.heap ++ [{ default := d, hi := hi }] } c n s.heap.length) c) rfl h1
-        · simp only [Prod.mk.injEq] at hstep
-          exact absurd hstep.2.symm hne
+    have := addParamCore_inv s c n d hi h
+    rw [hstep] at this; exact this
 
 /-- per-instance copies stay attached to names that are Parameters of the class -/
 theorem step_preserves_instOk (s : St) (op : Op) (h : Inv s) (hi : InstOk s) :
@@ -305,14 +290,8 @@ theorem step_preserves_instOk (s : St) (op : Op) (h : Inv s) (hi : InstOk s) :
               (fun k m hk => by rw [(clearDesc_shape s c).2]; exact hk) hi
   | addParam c n d hi' =>
     simp only [step] at hstep
-    split at hstep
-    · simp only [Prod.mk.injEq] at hstep; rw [← hstep.1]; exact hi
-    · split at hstep
-      · simp only [Prod.mk.injEq] at hstep; rw [← hstep.1]; exact hi
-      · split at hstep <;> (simp only [Prod.mk.injEq] at hstep; rw [← hstep.1])
-        · exact instOk_cow2 s _ _ c n _ hi
-        · exact instOk_of (s := s) rfl (clearDesc_shape { s with heap := s.heap ++ [_] } c).1
-            (fun k m hk => by rw [(clearDesc_shape { s with heap := s.heap ++ [_] } c).2]; exact hk) hi
+    have := addParamCore_instOk s c n d hi' hi
+    rw [hstep] at this; exact this
   | newInst c kw =>
     obtain ⟨e1, e2, e3, _⟩ := nsRead_shape s c
     have h1 : InstOk (nsRead s c).1 := instOk_of e3 e1 (fun k n hk => by rw [e2]; exact hk) hi
@@ -422,34 +401,25 @@ theorem step_preserves_instOk (s : St) (op : Op) (h : Inv s) (hi : InstOk s) :
       exact instOk_of e3 e1 (fun k n hk => by rw [e2]; exact hk) hi
   | clsSetParam c n d hi' =>
     simp only [step] at hstep
-    split at hstep
-    · simp only [Prod.mk.injEq] at hstep; rw [← hstep.1]; exact hi
-    · split at hstep
-      · simp only [Prod.mk.injEq] at hstep; rw [← hstep.1]; exact hi
-      · split at hstep <;> (simp only [Prod.mk.injEq] at hstep; rw [← hstep.1])
-        · exact instOk_cow2 s _ _ c n _ hi
-        · exact instOk_setDict s _ _ c n _ hi
+    have := addParamCore_instOk s c n d hi' hi
+    rw [hstep] at this; exact this
 
-/-- the invariants hold after any history in which no Parameter-valued class assignment is rejected -/
-theorem run_preserves_inv (ops : List Op) (s : St) (h : Inv s) (hi : InstOk s) (hok : okSeq s ops) :
+/-- the invariants hold after any history -/
+theorem run_preserves_inv (ops : List Op) (s : St) (h : Inv s) (hi : InstOk s) :
     Inv (run s ops) ∧ InstOk (run s ops) := by
   induction ops generalizing s with
   | nil => exact ⟨by simpa [run] using h, by simpa [run] using hi⟩
   | cons op ops ih =>
-    obtain ⟨h1, h2⟩ := hok
     simp only [run, List.foldl_cons]
-    exact ih _ (step_preserves_inv s op h h1) (step_preserves_instOk s op h hi) h2
+    exact ih _ (step_preserves_inv s op h) (step_preserves_instOk s op h hi)
 
-/-- **C13 (all histories), partial.**  After *any* interleaving of namespace reads (including
-`edit_constant` blocks, which read the class namespace), class-level assignments of values and of
-Parameter objects at every level, `add_parameter` at every level (whether it succeeds or raises),
-instance creation, instance assignments and `obj.param[n]` accesses, the `.param` namespace of every
-class and instance agrees with attribute access — for `Dynamic` Parameter types too.  Excluded: a
-class-level assignment of a Parameter object that the merge re-validation *rejects*
-(`C13_full_refuted`: that path has no rollback). -/
-theorem namespace_agrees_partial (s : St) (ops : List Op) (h : Inv s) (hi : InstOk s) (hok : okSeq s ops) :
-    Agrees (run s ops) :=
-  agrees_of_inv _ (run_preserves_inv ops s h hi hok).1 (run_preserves_inv ops s h hi hok).2
+/-- **C13 (all histories).**  After *any* interleaving of namespace reads (including `edit_constant`
+blocks, which read the class namespace), class-level assignments of values and of Parameter objects
+at every level, `add_parameter` at every level (whether these succeed or raise), instance creation,
+instance assignments and `obj.param[n]` accesses, the `.param` namespace of every class and
+instance agrees with attribute access — for `Dynamic` Parameter types too. -/
+theorem namespace_agrees (s : St) (ops : List Op) (h : Inv s) (hi : InstOk s) : Agrees (run s ops) :=
+  agrees_of_inv _ (run_preserves_inv ops s h hi).1 (run_preserves_inv ops s h hi).2
 
 /-- freshly created classes (no cache computed yet, `__dict__`s are dicts) satisfy the invariant -/
 theorem fresh_inv (s : St) (hd : ∀ (c : CId) (k : Cls), s.classes[c]? = some k → (akeys k.dict).Nodup)
@@ -483,25 +453,18 @@ theorem witnessClasses_inv : Inv witnessClasses := by
     | 1, hk => simp [witnessClasses] at hk; subst hk; rfl
     | c + 2, hk => simp [witnessClasses] at hk
 
-/-- `list(B.param)`; `B.x = P(default=9)` — the inherited bound 5 makes the merge re-validation raise
-RuntimeError, but `B.x` is already the new Parameter while `B.param['x']` is still `A`'s -/
-def witnessParamAssign : List Op := [.read 1, .clsSetParam 1 "x" 9 none]
-
-/-- **C13, full statement: refuted.**  A class-level assignment of a Parameter object that the merge
-re-validation rejects (the `else` branch of `ParameterizedMetaclass.__setattr__`, since 3c67719
-`_initialize_parameter` + cache clearing, but without `add_parameter`'s rollback) leaves the
-rejected Parameter installed and clears no cache. -/
-theorem C13_full_refuted : ¬ C13_full := by
-  intro h
-  have := (h witnessClasses witnessParamAssign witnessClasses_inv rfl).getitem 1 "x"
-  revert this
-  decide
-
-/-- … while an accepted one behaves like `add_parameter` -/
-example : okSeq witnessClasses [.read 0, .read 1, .clsSetParam 0 "y" 3 none, .clsSetParam 1 "x" 4 none] ∧
-    aget (nsView (run witnessClasses [.read 0, .read 1, .clsSetParam 0 "y" 3 none]) 1) "y" = some 1 := by decide
+/-- **C13, full statement: holds.** -/
+theorem C13_full_holds : C13_full :=
+  fun s ops h hi => namespace_agrees s ops h (fresh_instOk s hi)
 
 /-! ### Non-vacuity: concrete hierarchies and histories that meet the hypotheses -/
+
+/-- the formerly failing history: `list(B.param)`; `B.x = P(default=9)` is rejected (RuntimeError),
+rolled back, and the namespace still agrees; an accepted one behaves like `add_parameter` -/
+example : (step (run witnessClasses [.read 1]) (.clsSetParam 1 "x" 9 none)).2 = .runtimeError ∧
+    aget (nsView (run witnessClasses [.read 1, .clsSetParam 1 "x" 9 none]) 1) "x" = some 0 ∧
+    staticAttr (run witnessClasses [.read 1, .clsSetParam 1 "x" 9 none]) 1 "x" = some 0 ∧
+    aget (nsView (run witnessClasses [.read 0, .read 1, .clsSetParam 0 "y" 3 none]) 1) "y" = some 1 := by decide
 
 example : Inv witnessClasses := witnessClasses_inv
 example : InstOk witnessClasses := fresh_instOk _ rfl
